@@ -198,6 +198,7 @@ func runC10(c *sim.Ctx) {
 				if err != nil {
 					return
 				}
+				defer scribbleDecoded(dp)
 				c.Count("probe.impl.accepts")
 				if !f.OK && !f.UnknownInfo {
 					c.Fail("ACCEPTED_INVALID_FRAME", site, facts, "Decode succeeded although a necessary condition fails: %s (size field %#x, declared %d, %d bytes delivered);%s", f.Reason, f.SizeField, f.Declared, len(d), desc)
